@@ -78,6 +78,11 @@ class C10(core.Prop):
                                 case = pl.make_case(smi, cut, comps, OPT_VARIANTS[oi])
                                 case['shared'] = [[ci, e] for ci, e in zip(subset, ends)]
                                 out.append(case)
+        # the same cases with every descriptor in parentheses of its own, C([!a])C, directly after its atom or after the atom's
+        # last closed branch
+        base = [c for c in out]
+        for i, case in enumerate(base[::(3 if q else 2)]):
+            out.append(dict(case, opts=dict(case['opts'], paren=True, after_branch=bool(i % 2))))
         # the other constructors / drivers (pipeline.VARIANTS); not the variants that build the base graph in another order:
         # which copy of a shared atom survives follows the insertion order of the coarse nodes (DESIGN 8.8)
         vs = [k for k, v in enumerate(pl.VARIANTS) if k and not str(v.get('entry', '')).startswith('graph')]
@@ -200,5 +205,5 @@ class C10(core.Prop):
 PROP = C10()
 
 # shape families added after the first complete pass (DESIGN 8.6-8.11); appended to the bounds written into the evidence
-BOUNDS_ADDED = '; plus: bead-level and layered (two-level) shared nodes against the disjoint description, pipeline.VARIANTS (string-order constructors), legacy=False with one shared pair and one ordinary cut'
+BOUNDS_ADDED = '; plus: bead-level and layered (two-level) shared nodes against the disjoint description, pipeline.VARIANTS (string-order constructors), legacy=False with one shared pair and one ordinary cut, every third case with each descriptor in parentheses of its own (directly after the atom / after its last closed branch)'
 PROP.BOUNDS = {k: v + BOUNDS_ADDED for k, v in PROP.BOUNDS.items()}
